@@ -249,7 +249,10 @@ class Fn:
             if nd['c'] == 'DeclStmt':
                 for v in nd.get('vars', []):
                     defs[v['id']] = {'init': v['init'] or None, 'writes': [], 'decl': i, 'name': v['name'], 't': v['t'],
-                                     'static': v.get('static', False), 'constexpr': v.get('constexpr', False), 'inl': nd.get('inl', 0)}
+                                     'static': v.get('static', False), 'constexpr': v.get('constexpr', False),
+                                     # a parameter of an inlined helper (synthetic binding `parameter = argument`) is always looked through; the
+                                     # helper's own locals are ordinary locals of the function they were inlined into
+                                     'inl': nd.get('inl', 0) if nd.get('synthetic') else 0}
                     for b in v.get('bindings', []):
                         defs[b['id']] = {'init': None, 'writes': [], 'decl': i, 'name': b['name'], 'binding_of': v['id']}
         for i in self.all_ids():
